@@ -3,8 +3,8 @@
    The level arrays are modelled by their MEANINGFUL content (what the last BuildWith wrote: level l
    has the nodes of that level, and the levels stop where the width reaches 1); a read outside it
    (Go: stale content of the pre-allocated arrays) is `Err EOther` — theorem htree_proof_is_audit
-   shows it never happens.  Go ints: the index i is a Z (a negative i passes the `i >= width`
-   guard and ends in `1 << -1`: run-time panic "negative shift amount", unless width = 1).
+   shows it never happens.  Go ints: the index i is a Z (before /repo d8c31e8 a negative i passed
+   the `i >= width` guard and ended in `1 << -1`: run-time panic; now it is rejected).
    No proofs in this file. *)
 From V Require Export Merkle.Verify.
 
@@ -65,10 +65,10 @@ Fixpoint ht_proof_loop (fuel : nat) (t : htree) (m n offset : N) (acc : list byt
   end.
 
 
+(* since /repo d8c31e8: `if i < 0 || i >= t.width { return nil, ErrIllegalArguments }` *)
 Definition ht_inclusion_proof (t : htree) (i : Z) : res (list bytes) :=
-  if (Z.of_N (ht_width t) <=? i)%Z then Err EIllegalArguments else
+  if (i <? 0)%Z || (Z.of_N (ht_width t) <=? i)%Z then Err EIllegalArguments else
   if ht_width t =? 1 then Ok [] else
-  if (i <? 0)%Z then Panic else
   ht_proof_loop (N.to_nat (ht_width t)) t (Z.to_N i) (ht_width t) 0 [].
 
 End HTree.
